@@ -303,6 +303,20 @@ func Harness_C11_login() {
 	if needCred {
 		globals.authValidators = map[auth.Level][]string{auth.LevelAuth: {"email"}, auth.LevelAnon: {"email"}, auth.LevelRoot: {"email"}}
 	}
+	// responses to credential challenges sent along with the login: none, for a known method, for an unknown one
+	respondedOK := false
+	if needCred {
+		globals.validators = map[string]credValidator{"email": {}}
+		verifValidators = map[string]*verifValidator{"email": {}}
+		switch verifChoose("loginCreds", 3) {
+		case 1:
+			// the fake validator accepts every response: the credential gets validated by this very login
+			w.msg.Login.Cred = []MsgCredClient{{Method: "email", Response: "123456"}}
+			respondedOK = true
+		case 2:
+			w.msg.Login.Cred = []MsgCredClient{{Method: "fax", Response: "123456"}}
+		}
+	}
 	// the lookup of already validated credentials may fail (store fault): the login fails with it
 	verifCredsLookupFails = needCred && verifNondetBool("credsLookupFails")
 	s.dispatch(w.msg)
@@ -317,8 +331,8 @@ func Harness_C11_login() {
 			effState = types.StateUndefined
 		}
 	}
-	missingCreds := needCred && o.features&auth.FeatureValidated == 0
-	if missingCreds && verifCredsLookupFails {
+	missingCreds := needCred && o.features&auth.FeatureValidated == 0 && !(respondedOK && !verifCredsLookupFails)
+	if needCred && o.features&auth.FeatureValidated == 0 && verifCredsLookupFails {
 		// whether credentials are missing could not be established
 		verifAssert(w.uid0 != 0 || (s.uid == 0 && s.authLvl == auth.LevelNone), "login-with-unverifiable-credentials-leaves-session-unauthenticated")
 	}
